@@ -12,8 +12,7 @@ ordered fields).  Parameters that are not field operations:
 Mirrors: `tell`, `tell_pending`, `tell_many` (loop and batch path), `remove_unfinished`,
 `_update_losses`, `_update_interpolated_loss_in_interval`, `_get_loss_in_interval`, `_update_scale`,
 `loss`, `_missing_bounds`, `_ask_points_without_adding`, `ask`, `linspace`, `finite_loss`,
-`loss_manager` ordering, and the index-based `for interval in reversed(self.losses)` re-computation
-loop that mutates the container it iterates over.
+`loss_manager` ordering, and the re-computation loop over a snapshot of the loss keys.
 Out of scope (excluded by the properties' quantifiers): points outside the bounds, NaN values.
 Hand-written; tied to /repo by `harness/l1d_drive.py`.
 -/
@@ -193,18 +192,14 @@ def updateScale (s : State α) (x : α) (y : List α) : State α :=
   { s with bboxX := bx, scaleX := bx.2 - bx.1, bboxY := some by',
            scaleY := maxOf (List.zipWith (· - ·) by'.2 by'.1) }
 
-/-- `for interval in reversed(self.losses): self._update_interpolated_loss_in_interval(*interval)`
-— the reverse list iterator is index based and the loop body re-inserts the entry it visits. -/
-def recomputeLoop (s : State α) : Nat → State α
-  | 0 => s
-  | i + 1 =>
-    match s.losses[i]? with
-    | some e => recomputeLoop (updInterp lossFn r12 s e.1.1 e.1.2) i
-    | none => recomputeLoop s i
+/-- `for interval in list(reversed(self.losses)): self._update_interpolated_loss_in_interval(*interval)`
+— the keys are snapshotted before the loop (the loop body re-inserts the entry it visits). -/
+def recomputeLoop (s : State α) (keys : List (Ival α)) : State α :=
+  keys.foldl (fun s iv => updInterp lossFn r12 s iv.1 iv.2) s
 
 def maybeRescale (s : State α) : State α :=
   if s.factor * s.oldScaleY < s.scaleY then
-    let s := recomputeLoop lossFn r12 s s.losses.length
+    let s := recomputeLoop lossFn r12 s (s.losses.map Prod.fst).reverse
     { s with oldScaleY := s.scaleY }
   else s
 
@@ -260,7 +255,7 @@ def tellManyBatch (s : State α) (pts : List (α × List α)) : State α :=
         let s := { s with lossesC := lset r12 s.lossScale iv .inf s.lossesC }
         match ti.getLast? with
         | some (a, b) =>
-          if b = iv.1 ∧ (lget (a, b) s.losses).isNone then (s, ti.dropLast ++ [(a, iv.2)])
+          if b = iv.1 ∧ !(hasData s b) then (s, ti.dropLast ++ [(a, iv.2)])
           else (s, ti ++ [iv])
         | none => (s, ti ++ [iv]))
     (s, [])
